@@ -206,6 +206,56 @@ Proof.
   repeat split; auto. lia.
 Qed.
 
+(* ---------- the armed deadline, every history (stale timers, overlapping executions included) ----------
+   Whenever the controller is pending, its failover timer is armed and its deadline is the instant of
+   the down report that started the CURRENT uninterrupted down episode plus the configured delay —
+   never an earlier episode's. *)
+Definition invP (c : config) (s : state) : Prop :=
+  st s = Pending -> healthy s = false /\ fo s = Some (since s + c_delay c).
+
+Lemma step_invP c s e : invP c s -> invP c (nxt c s e).
+Proof.
+  unfold invP, nxt, step.
+  destruct s as [r st0 h hcf hcs nw fo0 fb0 foz fbz infl ni nc nx nf sn].
+  destruct h, e; unf; cbn.
+  all: intros H; destruct st0; cbn in *.
+  all: repeat (dm; cbn in * ); try congruence; try (intros _; split; reflexivity).
+  all: try (destruct (H eq_refl) as [X _]; discriminate X).
+  all: try (intros E; destruct (H E) as [H1 H2]; try discriminate H1; split; [reflexivity | exact H2]).
+Qed.
+
+Lemma run_invP c : forall evs s, invP c s -> invP c (run c s evs).
+Proof.
+  induction evs as [|e tl IH]; intros s H; [exact H|].
+  change (run c s (e :: tl)) with (run c (nxt c s e) tl). apply IH, step_invP, H.
+Qed.
+
+Theorem pending_deadline_is_since_plus_delay : forall c evs,
+  st (run c (init c) evs) = Pending ->
+  healthy (run c (init c) evs) = false /\
+  fo (run c (init c) evs) = Some (since (run c (init c) evs) + c_delay c).
+Proof. intros c evs. apply (run_invP c evs (init c)). intros E; discriminate E. Qed.
+
+(* history form: the deadline is (model time of the check that started the current down episode) + delay *)
+Theorem armed_deadline_is_episode_start_plus_delay : forall c evs,
+  st (run c (init c) evs) = Pending ->
+  exists pre post, evs = pre ++ Down :: post /\
+    healthy (run c (init c) pre) = true /\
+    (forall k, healthy (run c (init c) (pre ++ Down :: firstn k post)) = false) /\
+    fo (run c (init c) evs) = Some (now (run c (init c) pre) + c_delay c).
+Proof.
+  intros c evs HP. destruct (pending_deadline_is_since_plus_delay c evs HP) as [Hd Hf].
+  destruct (down_has_since c evs Hd) as (pre & post & E & Hp & Hk & Hs & _).
+  exists pre, post. repeat split; auto. rewrite Hf, Hs. reflexivity.
+Qed.
+
+(* non-vacuity, second episode: down at 0, recovery at 9 (cancelled), down again at 12: the deadline is
+   12 + 10, not 0 + 10 *)
+Lemma second_episode_deadline :
+  st (run cfg0 (init cfg0) [Down; Advance 9; Up; Advance 3; Down; Advance 5]) = Pending /\
+  fo (run cfg0 (init cfg0) [Down; Advance 9; Up; Advance 3; Down; Advance 5]) = Some 22.
+Proof. vm_compute. split; reflexivity. Qed.
+
 (* non-vacuity: default thresholds 3 / 2; F F S F F F reports the partner down at the sixth check only,
    one success does not bring it back, and the timer promotes after the delay *)
 Definition cfg32 : config := Build_config 10 12 true Standby 3 2.
